@@ -308,3 +308,171 @@ Proof.
   - apply (predict_gain_inv _ K' N tiny eps clip b wfun); auto. apply RGn_refl. Qed.
 End Loop.
 End CACGGain.
+
+(* ------------------------------------------------------------------ cWMM and cBMM *)
+Section WatsonGain.
+Variables (D' N : nat) (tiny : R) (sal : nat -> R).
+Variables (z : nat -> nat -> C) (c : nat -> C).
+Let D := S D'.
+Let z' : nat -> nat -> C := fun n d => c n * z n d.
+Hypothesis Ht : (0 < tiny <= 1)%R.
+Hypothesis Hc : forall n, (n < N)%nat -> c n <> 0.
+Hypothesis Hz : forall n, (n < N)%nat -> (tiny <= cnorm RO D (z n))%R /\ (tiny <= Cmod (c n) * cnorm RO D (z n))%R.
+
+Lemma wat_unit_scale n d : (n < N)%nat -> wat_unit RO D' tiny z' n d = phasor (c n) * wat_unit RO D' tiny z n d.
+Proof. intros Hn. unfold wat_unit. destruct (Hz n Hn). apply cunit_max_scale; auto. lra. Qed.
+(* predict normalises the already normalised observation once more: still only a unit phasor apart *)
+Lemma wat_unit2_scale n d : (n < N)%nat -> wat_unit2 RO D' tiny z' n d = phasor (c n) * wat_unit2 RO D' tiny z n d.
+Proof. intros Hn. unfold wat_unit2. destruct (Hz n Hn) as [H1 H2].
+  rewrite (functional_extensionality (wat_unit RO D' tiny z' n) (fun d => phasor (c n) * wat_unit RO D' tiny z n d))
+    by (intros; apply wat_unit_scale; auto).
+  assert (E1 : cnorm RO D (wat_unit RO D' tiny z n) = 1%R) by (apply cnorm_cunit_max; lra).
+  pose proof (phasor_mod (c n) (Hc n Hn)) as Hp.
+  rewrite cunit_max_scale.
+  - rewrite (phasor_unit _ Hp). reflexivity.
+  - intro E. rewrite E, Cmod_0 in Hp. lra.
+  - lra.
+  - fold D. rewrite E1. lra.
+  - fold D. rewrite E1, Hp. lra. Qed.
+
+Theorem cwmm_cov_gain_inv r r' : (forall n, (n < N)%nat -> r n = r' n) ->
+  cwmm_cov RO D' N tiny sal z' r' = cwmm_cov RO D' N tiny sal z r.
+Proof. intros Hr. apply functional_extensionality; intros d. apply functional_extensionality; intros e.
+  unfold cwmm_cov, watson_cov. f_equal.
+  - f_equal. rewrite !bsum_RO. apply rsum_ext; intros n Hn. rewrite Hr; auto.
+  - apply (scatter_phase_inv N _ _ _ _ (fun n => phasor (c n))).
+    + intros n Hn. apply phasor_mod; auto.
+    + intros n d0 Hn. apply wat_unit_scale; auto.
+    + intros n Hn. rewrite Hr; auto. Qed.
+
+Variable wat_oracle : (nat -> nat -> C) -> (nat -> C) * (R * R).
+Variable bing_oracle : (nat -> nat -> C) -> (nat -> nat -> C) * ((nat -> R) * R).
+
+Theorem cwmm_mstep_gain_inv r r' (q q' : nat -> R) : (forall n, (n < N)%nat -> r n = r' n) ->
+  cwmm_mstep_c RO D' N tiny sal wat_oracle z r q = cwmm_mstep_c RO D' N tiny sal wat_oracle z' r' q'.
+Proof. intros Hr. unfold cwmm_mstep_c. rewrite (cwmm_cov_gain_inv r r' Hr). reflexivity. Qed.
+Theorem cbmm_mstep_gain_inv r r' (q q' : nat -> R) : (forall n, (n < N)%nat -> r n = r' n) ->
+  cbmm_mstep_c RO D' N tiny sal z bing_oracle r q = cbmm_mstep_c RO D' N tiny sal z' bing_oracle r' q'.
+Proof. intros Hr. unfold cbmm_mstep_c, cbmm_cov. rewrite (cwmm_cov_gain_inv r r' Hr). reflexivity. Qed.
+Theorem cwmm_logpdf_gain_inv p n : (n < N)%nat ->
+  cwmm_logpdf_c RO D' tiny z p n = cwmm_logpdf_c RO D' tiny z' p n.
+Proof. intros Hn. unfold cwmm_logpdf_c.
+  rewrite (functional_extensionality (wat_unit2 RO D' tiny z' n) (fun d => phasor (c n) * wat_unit2 RO D' tiny z n d))
+    by (intros; apply wat_unit2_scale; auto).
+  symmetry. apply watson_log_pdf_phase_inv. apply phasor_mod; auto. Qed.
+Theorem cbmm_logpdf_gain_inv p n : (n < N)%nat ->
+  cbmm_logpdf_c RO D' tiny z p n = cbmm_logpdf_c RO D' tiny z' p n.
+Proof. intros Hn. unfold cbmm_logpdf_c.
+  rewrite (functional_extensionality (wat_unit2 RO D' tiny z' n) (fun d => phasor (c n) * wat_unit2 RO D' tiny z n d))
+    by (intros; apply wat_unit2_scale; auto).
+  symmetry. apply bingham_log_pdf_phase_inv. apply phasor_mod; auto. Qed.
+
+Section Loop.
+Variables (K' : nat) (eps : R) (clip : bool) (b : nat -> nat -> bool).
+Variable wfun : (nat -> nat -> R) -> nat -> nat -> R.
+Hypothesis wfun_local : forall a a', (forall k n, (n < N)%nat -> a k n = a' k n) ->
+  forall k n, (n < N)%nat -> wfun a k n = wfun a' k n.
+Let noq : ((nat -> C) * (R * R)) -> nat -> R := fun _ _ => 0%R.
+Let Ew (zz : nat -> nat -> C) := mix_E RO _ K' tiny eps clip b (cwmm_logpdf_c RO D' tiny zz) noq.
+Let Mw (zz : nat -> nat -> C) := mix_M _ wfun (cwmm_mstep_c RO D' N tiny sal wat_oracle zz).
+Theorem fit_gain_inv_cwmm n g0 :
+  RTn _ N (fit (Ew z) (Mw z) n g0) (fit (Ew z') (Mw z') n g0) /\
+  RGn N (Ew z (fit (Ew z) (Mw z) n g0)) (Ew z' (fit (Ew z') (Mw z') n g0)).
+Proof. split.
+  - apply (fit_gain_inv _ K' N tiny eps clip b wfun); auto.
+    + intros; apply cwmm_mstep_gain_inv; auto. + apply cwmm_logpdf_gain_inv. + apply RGn_refl.
+  - apply (predict_gain_inv _ K' N tiny eps clip b wfun); auto.
+    + intros; apply cwmm_mstep_gain_inv; auto. + apply cwmm_logpdf_gain_inv. + apply RGn_refl. Qed.
+Let noqb : ((nat -> nat -> C) * ((nat -> R) * R)) -> nat -> R := fun _ _ => 0%R.
+Let Eb (zz : nat -> nat -> C) := mix_E RO _ K' tiny eps clip b (cbmm_logpdf_c RO D' tiny zz) noqb.
+Let Mb (zz : nat -> nat -> C) := mix_M _ wfun (cbmm_mstep_c RO D' N tiny sal zz bing_oracle).
+Theorem fit_gain_inv_cbmm n g0 :
+  RTn _ N (fit (Eb z) (Mb z) n g0) (fit (Eb z') (Mb z') n g0) /\
+  RGn N (Eb z (fit (Eb z) (Mb z) n g0)) (Eb z' (fit (Eb z') (Mb z') n g0)).
+Proof. split.
+  - apply (fit_gain_inv _ K' N tiny eps clip b wfun); auto.
+    + intros; apply cbmm_mstep_gain_inv; auto. + apply cbmm_logpdf_gain_inv. + apply RGn_refl.
+  - apply (predict_gain_inv _ K' N tiny eps clip b wfun); auto.
+    + intros; apply cbmm_mstep_gain_inv; auto. + apply cbmm_logpdf_gain_inv. + apply RGn_refl. Qed.
+End Loop.
+End WatsonGain.
+
+(* ------------------------------------------------------------------ vMF / vMFMM / embedding stream of vMF-cACGMM *)
+Section VMFGain.
+Variables (D N : nat) (tiny kmin kmax : R) (sal : nat -> R) (lognorm : R -> R).
+Variables (v : nat -> nat -> R) (c : nat -> R).
+Let v' : nat -> nat -> R := fun n d => (c n * v n d)%R.
+Hypothesis Ht : (0 < tiny)%R.
+Hypothesis Hc : forall n, (n < N)%nat -> (0 < c n)%R.
+Hypothesis Hv : forall n, (n < N)%nat -> (tiny <= rnorm RO D (v n))%R /\ (tiny <= c n * rnorm RO D (v n))%R.
+
+(* the projected embedding is EQUAL, not merely equal up to a phase *)
+Theorem vmf_unit1_gain_inv n : (n < N)%nat -> vmf_unit1 RO D tiny v' n = vmf_unit1 RO D tiny v n.
+Proof. intros Hn. apply functional_extensionality; intros d. unfold vmf_unit1. destruct (Hv n Hn).
+  apply runit_max_scale; auto. Qed.
+
+Lemma vmf_r_local (y y' : nat -> nat -> R) s s' :
+  (forall n, (n < N)%nat -> y' n = y n) -> (forall n, (n < N)%nat -> s' n = s n) ->
+  vmf_r RO N y' s' = vmf_r RO N y s.
+Proof. intros Hy Hs. apply functional_extensionality; intros d. unfold vmf_r. rewrite !bsum_RO.
+  apply rsum_ext; intros n Hn. rewrite Hy, Hs; auto. Qed.
+Lemma vmf_fit_local (y y' : nat -> nat -> R) s s' :
+  (forall n, (n < N)%nat -> y' n = y n) -> (forall n, (n < N)%nat -> s' n = s n) ->
+  vmf_mean RO D N tiny y' s' = vmf_mean RO D N tiny y s /\ vmf_kappa RO D N kmin kmax y' s' = vmf_kappa RO D N kmin kmax y s.
+Proof. intros Hy Hs. pose proof (vmf_r_local y y' s s' Hy Hs) as Er. split.
+  - apply functional_extensionality; intros d. unfold vmf_mean. rewrite Er. reflexivity.
+  - unfold vmf_kappa, vmf_rbar. rewrite Er. do 4 f_equal. rewrite !bsum_RO. apply rsum_ext; intros n Hn. apply Hs; auto. Qed.
+
+Theorem vmfmm_mstep_gain_inv r r' (q q' : nat -> R) : (forall n, (n < N)%nat -> r n = r' n) ->
+  vmfmm_mstep_c RO D N tiny kmin kmax sal v r q = vmfmm_mstep_c RO D N tiny kmin kmax sal v' r' q'.
+Proof. intros Hr. unfold vmfmm_mstep_c.
+  destruct (vmf_fit_local (vmf_unit1 RO D tiny v) (vmf_unit1 RO D tiny v') (fun n => omul RO (r n) (sal n)) (fun n => omul RO (r' n) (sal n)))
+    as [E1 E2]. apply vmf_unit1_gain_inv. intros n Hn; rewrite Hr; auto. rewrite E1, E2. reflexivity. Qed.
+Theorem vmfmm_logpdf_gain_inv p n : (n < N)%nat ->
+  vmfmm_logpdf_c RO D tiny lognorm v p n = vmfmm_logpdf_c RO D tiny lognorm v' p n.
+Proof. intros Hn. unfold vmfmm_logpdf_c, vmf_unit3, vmf_unit2. rewrite (vmf_unit1_gain_inv n Hn). reflexivity. Qed.
+
+(* embedding stream of vMF-cACGMM as repaired (fit normalises on entry) *)
+Theorem vmfcacg_emb_gain_inv s s' : (forall n, (n < N)%nat -> s' n = s n) ->
+  vmfcacg_emb_mstep RO D N tiny kmin kmax v' s' = vmfcacg_emb_mstep RO D N tiny kmin kmax v s /\
+  forall p n, (n < N)%nat -> vmfcacg_emb_logpdf RO D tiny lognorm v' p n = vmfcacg_emb_logpdf RO D tiny lognorm v p n.
+Proof. intros Hs. split.
+  - unfold vmfcacg_emb_mstep. destruct (vmf_fit_local (vmf_unit1 RO D tiny v) (vmf_unit1 RO D tiny v') s s') as [E1 E2]; auto.
+    apply vmf_unit1_gain_inv. rewrite E1, E2. reflexivity.
+  - intros p n Hn. unfold vmfcacg_emb_logpdf, vmf_unit2. rewrite (vmf_unit1_gain_inv n Hn). reflexivity. Qed.
+
+Section Loop.
+Variables (K' : nat) (eps : R) (clip : bool) (b : nat -> nat -> bool).
+Variable wfun : (nat -> nat -> R) -> nat -> nat -> R.
+Hypothesis wfun_local : forall a a', (forall k n, (n < N)%nat -> a k n = a' k n) ->
+  forall k n, (n < N)%nat -> wfun a k n = wfun a' k n.
+Let noq : ((nat -> R) * R) -> nat -> R := fun _ _ => 0%R.
+Let Ev (vv : nat -> nat -> R) := mix_E RO _ K' tiny eps clip b (vmfmm_logpdf_c RO D tiny lognorm vv) noq.
+Let Mv (vv : nat -> nat -> R) := mix_M _ wfun (vmfmm_mstep_c RO D N tiny kmin kmax sal vv).
+Theorem fit_gain_inv_vmfmm n g0 :
+  RTn _ N (fit (Ev v) (Mv v) n g0) (fit (Ev v') (Mv v') n g0) /\
+  RGn N (Ev v (fit (Ev v) (Mv v) n g0)) (Ev v' (fit (Ev v') (Mv v') n g0)).
+Proof. split.
+  - apply (fit_gain_inv _ K' N tiny eps clip b wfun); auto.
+    + intros; apply vmfmm_mstep_gain_inv; auto. + apply vmfmm_logpdf_gain_inv. + apply RGn_refl.
+  - apply (predict_gain_inv _ K' N tiny eps clip b wfun); auto.
+    + intros; apply vmfmm_mstep_gain_inv; auto. + apply vmfmm_logpdf_gain_inv. + apply RGn_refl. Qed.
+End Loop.
+End VMFGain.
+
+(* the former VMFCACGMMTrainer.fit (M-step on the raw embedding) was NOT invariant: one frame, one coordinate 1/2,
+   gain 1/2 gives concentration 1/4 instead of 1/2 *)
+Theorem vmfcacg_emb_raw_not_invariant :
+  exists (v : nat -> nat -> R) (c : R) (s : nat -> R), (0 < c)%R /\
+    snd (vmfcacg_emb_mstep_raw RO 1 1 (/ 1000) 0 500 (fun n d => c * v n d)%R s)
+    <> snd (vmfcacg_emb_mstep_raw RO 1 1 (/ 1000) 0 500 v s).
+Proof. exists (fun _ _ => / 2)%R, (/ 2)%R, (fun _ => 1%R). split. lra.
+  unfold vmfcacg_emb_mstep_raw. cbn [snd]. unfold vmf_kappa, vmf_rbar, vmf_kappa_raw, rnorm, rnorm2, vmf_r, odiv, osub.
+  cbn [bsum onat omul oadd oopp oinv osqrt o0 o1 RO]. rewrite !omin_RO, !omax_RO.
+  replace (0 + (0 + 1 * (/ 2 * / 2)) * (0 + 1 * (/ 2 * / 2)))%R with ((/ 4) * (/ 4))%R by field.
+  replace (0 + (0 + 1 * / 2) * (0 + 1 * / 2))%R with ((/ 2) * (/ 2))%R by field.
+  rewrite !sqrt_square by lra.
+  replace (/ 4 * / (0 + 1))%R with (/ 4)%R by field. replace (/ 2 * / (0 + 1))%R with (/ 2)%R by field.
+  replace ((/ 4 * (0 + 1) + - (/ 4 * (/ 4 * / 4))) * / (1 + - (/ 4 * / 4)))%R with (/ 4)%R by field.
+  replace ((/ 2 * (0 + 1) + - (/ 2 * (/ 2 * / 2))) * / (1 + - (/ 2 * / 2)))%R with (/ 2)%R by field.
+  unfold Rmin, Rmax. repeat (destruct (Rle_dec _ _)); lra. Qed.
